@@ -477,7 +477,15 @@ func (parser *Parser) ParseExpression(depth int) (res Sexp, err error) {
 	case TokenSymbol:
 		if tok.str == "-" || tok.str == "+" {
 			// are we -Inf ?
-			tok2, err := parser.ParserPeekNextToken(0)
+			var tok2 Token
+			var err error
+			if depth == 0 {
+				// nothing is open: the text may end here, so
+				// look ahead without asking for more input.
+				tok2, err = lexer.PeekNextToken(0)
+			} else {
+				tok2, err = parser.ParserPeekNextToken(0)
+			}
 			if err != nil {
 				return SexpEnd, err
 			}
